@@ -354,3 +354,232 @@ func c09HandlerResultReturned(c *Ctx, rule string) {
 	}
 	c.R.Min(rule, 2)
 }
+
+// ---------------------------------------------------------------- R-reader-survives (C07)
+// "Garbage on the listening stream does not end it": the loop that reads a long-lived event stream (a function that
+// reads lines in a loop and does not itself return a call's answer) skips a frame it cannot decode. No return out of
+// that loop is controlled by the error of decoding ONE frame's payload — json.Unmarshal of the frame, or a library
+// helper that returns such an error: one undecodable frame would end the stream, and every later well-formed
+// notification or server request is lost while the client looks healthy. (A json.Decoder reading the stream itself is
+// different: its errors are sticky and must end the loop — R-sticky-decoder.)
+func c07ReaderSurvives(c *Ctx, fns []*ssa.Function) {
+	mayDecodeErr := map[*ssa.Function]bool{}
+	isDecode := func(call *ssa.Call) bool { return ir.CallName(call) == "encoding/json.Unmarshal" }
+	var decodeErr func(v ssa.Value, d int, seen map[ssa.Value]bool) bool
+	decodeErr = func(v ssa.Value, d int, seen map[ssa.Value]bool) bool {
+		if v == nil || d > 6 || seen[v] {
+			return false
+		}
+		seen[v] = true
+		switch x := v.(type) {
+		case *ssa.Extract:
+			if call, ok := x.Tuple.(*ssa.Call); ok {
+				if sc := ir.StaticCallee(call); sc != nil && mayDecodeErr[sc] {
+					return true
+				}
+			}
+		case *ssa.Call:
+			if isDecode(x) {
+				return true
+			}
+			if sc := ir.StaticCallee(x); sc != nil && mayDecodeErr[sc] {
+				return true
+			}
+			if n := ir.CallName(x); n == "fmt.Errorf" || n == "errors.Join" {
+				for _, a := range x.Call.Args {
+					for _, e := range variadicElems(a) {
+						if decodeErr(ir.Unwrap(e), d+1, seen) {
+							return true
+						}
+					}
+				}
+			}
+		case *ssa.Phi:
+			for _, e := range x.Edges {
+				if decodeErr(e, d+1, seen) {
+					return true
+				}
+			}
+		case *ssa.MakeInterface:
+			return decodeErr(x.X, d+1, seen)
+		case *ssa.ChangeInterface:
+			return decodeErr(x.X, d+1, seen)
+		case *ssa.UnOp:
+			if u := unspill(x); u != ssa.Value(x) {
+				return decodeErr(u, d+1, seen)
+			}
+		}
+		return false
+	}
+	for iter := 0; iter < 3; iter++ {
+		for _, fn := range fns {
+			if mayDecodeErr[fn] {
+				continue
+			}
+			res := fn.Signature.Results()
+			if res.Len() == 0 || ir.TypeStr(res.At(res.Len()-1).Type()) != "error" {
+				continue
+			}
+			ir.EachInstr(fn, func(blk *ssa.BasicBlock, _ int, in ssa.Instruction) {
+				ret, ok := in.(*ssa.Return)
+				if !ok || blk == fn.Recover {
+					return
+				}
+				rs := ir.Results(ret)
+				if decodeErr(rs[len(rs)-1], 0, map[ssa.Value]bool{}) {
+					mayDecodeErr[fn] = true
+				}
+			})
+		}
+	}
+	n := 0
+	for _, fn := range fns {
+		answers := false
+		for i := 0; i < fn.Signature.Results().Len(); i++ {
+			if strings.HasSuffix(ir.TypeStr(fn.Signature.Results().At(i).Type()), "json.RawMessage") {
+				answers = true
+			}
+		}
+		if answers {
+			continue
+		}
+		reads := false
+		ir.EachInstr(fn, func(b *ssa.BasicBlock, _ int, in ssa.Instruction) {
+			if call, ok := in.(*ssa.Call); ok && flow.InCycle(b) {
+				switch ir.CallName(call) {
+				case "(*bufio.Reader).ReadString", "(*bufio.Reader).ReadLine", "(*bufio.Reader).ReadBytes", "(*bufio.Scanner).Scan":
+					reads = true
+				}
+			}
+		})
+		if !reads {
+			continue
+		}
+		n++
+		pd := flow.NewPostDom(fn)
+		bad := ""
+		ir.EachInstr(fn, func(b *ssa.BasicBlock, _ int, in ssa.Instruction) {
+			ret, ok := in.(*ssa.Return)
+			if !ok || b == fn.Recover || bad != "" {
+				return
+			}
+			for _, g := range pd.ControlDepsTransitive(b) {
+				if !flow.InCycle(g.If.Block()) {
+					continue
+				}
+				v, op, ok := nilCompare(g.If.Cond)
+				if !ok || (op == token.NEQ) != g.Branch {
+					continue
+				}
+				if decodeErr(v, 0, map[ssa.Value]bool{}) {
+					bad = c.Pos(ret.Pos())
+				}
+			}
+		})
+		c.R.Check(bad == "", "R-reader-survives", "stream-reading loop of "+fname(fn), c.Pos(fn.Pos()), "no return out of the loop is controlled by the error of decoding one frame",
+			sprintf("%s reads a long-lived event stream in a loop and returns (near %s) when ONE frame's payload cannot be decoded (json.Unmarshal, or a helper returning its error): a single malformed frame ends the listening stream, and every later well-formed notification or server request is lost while calls keep working", fname(fn), bad))
+	}
+	c.R.Min("R-reader-survives", 2)
+}
+
+// ---------------------------------------------------------------- R-child-io-owned (C08)
+// os/exec: when Cmd.Stdout / Cmd.Stderr is set to something that is not an *os.File, exec starts a goroutine that
+// copies from a pipe, and Cmd.Wait returns only when that pipe is closed by EVERY process holding it — descendants of
+// the child included (npx, `sh -c`, `go run` launchers). The transport's watcher waits in Cmd.Wait to learn that the
+// child is gone; with such a writer a killed child whose helper lives on keeps the watcher — and every pending call
+// and Close — waiting. A client transport that starts a child either uses the *Pipe methods / an *os.File, or bounds
+// the wait with Cmd.WaitDelay.
+func c08ChildIOOwned(c *Ctx) {
+	n := 0
+	for _, fn := range c.P.LibFns {
+		if !clientSide(c, fn) {
+			continue
+		}
+		delay := false
+		ir.EachInstr(fn, func(_ *ssa.BasicBlock, _ int, in ssa.Instruction) {
+			if st, ok := in.(*ssa.Store); ok {
+				if f, _, ok := ir.FieldOf(st.Addr); ok && f.Struct != nil && f.Struct.Obj().Pkg() != nil && f.Struct.Obj().Pkg().Path() == "os/exec" && f.Name == "WaitDelay" {
+					delay = true
+				}
+			}
+		})
+		ir.EachInstr(fn, func(_ *ssa.BasicBlock, _ int, in ssa.Instruction) {
+			st, ok := in.(*ssa.Store)
+			if !ok {
+				return
+			}
+			f, _, ok := ir.FieldOf(st.Addr)
+			if !ok || f.Struct == nil || f.Struct.Obj().Pkg() == nil || f.Struct.Obj().Pkg().Path() != "os/exec" || f.Struct.Obj().Name() != "Cmd" {
+				return
+			}
+			if f.Name != "Stdout" && f.Name != "Stderr" {
+				return
+			}
+			n++
+			isFile := false
+			v := st.Val
+			if mi, ok := v.(*ssa.MakeInterface); ok {
+				isFile = ir.TypeStr(mi.X.Type()) == "*os.File"
+			}
+			if ir.IsNilConst(v) {
+				isFile = true
+			}
+			c.R.Check(isFile || delay, "R-child-io-owned", sprintf("exec.Cmd.%s set in %s", f.Name, fname(fn)), c.Pos(st.Pos()),
+				"an *os.File (or the wait is bounded by WaitDelay)",
+				sprintf("%s sets the child's %s to a writer that is not an *os.File and sets no WaitDelay: Cmd.Wait then waits until every process that inherited the pipe has closed it, so after the child is killed its watcher — and with it every pending call and Close — hangs for as long as a helper process of the child lives", fname(fn), f.Name))
+		})
+	}
+	if n == 0 {
+		c.R.Hold("R-child-io-owned", "the child's output streams are obtained with the *Pipe methods", "", "no store to exec.Cmd.Stdout / Stderr in client code")
+	}
+}
+
+// ---------------------------------------------------------------- R-handler-ctx-live (C08)
+// On the Streamable HTTP server a request, or a notification, is handled on the connection it arrived on, and the
+// context handed to user code (the dispatcher, a registered notification handler) is how that code learns that the
+// peer is gone. Where the Streamable handler hands a context to user code, the context is not cut off from the
+// request's cancellation (WithoutCancel / Background): a handler left running under a detached context keeps its
+// goroutine, and the pending entry of any request it sends to the client, after the connection has ended.
+// (The legacy SSE server answers on another connection and detaches by design; it is not judged here.)
+func c08HandlerCtxLive(c *Ctx) {
+	var root *ssa.Function
+	for _, e := range serverEntries(c) {
+		if strings.Contains(fname(e), "httpServerHandler") {
+			root = e
+		}
+	}
+	if root == nil {
+		c.R.Break("R-handler-ctx-live: ServeHTTP of the Streamable handler not found")
+		return
+	}
+	walk := detachedWalker(c)
+	n := 0
+	// everything the Streamable handler reaches, goroutines it starts included — but not through the legacy SSE server
+	for _, fn := range sortedFuncs(c.Reach(root)) {
+		if clientSide(c, fn) || strings.Contains(fname(ir.Outer(fn)), "SSEServer") || strings.Contains(fname(ir.Outer(fn)), "stdio") {
+			continue
+		}
+		cnt := 0
+		ir.EachInstr(fn, func(_ *ssa.BasicBlock, _ int, in ssa.Instruction) {
+			call, ok := in.(ssa.CallInstruction)
+			if !ok {
+				return
+			}
+			if !notificationHandOff(call) {
+				return
+			}
+			for _, a := range call.Common().Args {
+				if ir.TypeStr(a.Type()) != "context.Context" {
+					continue
+				}
+				n++
+				cnt++
+				why := walk(fn, a)
+				c.R.Check(why == "", "R-handler-ctx-live", sprintf("context handed to a notification handler #%d in %s", cnt, fname(fn)), c.Pos(call.Pos()),
+					"not cut off from the request's cancellation",
+					sprintf("%s hands a registered handler a context that was cut off from the request's cancellation (%s): when the peer goes away nothing tells the handler, so its goroutine — and the pending entry of a request it sent to the client — stay until their own timeouts", fname(fn), why))
+			}
+		})
+	}
+	c.R.Min("R-handler-ctx-live", 1)
+}
